@@ -107,6 +107,12 @@ pub fn hash_bytes(b: &[u8]) -> u64 {
 pub fn run_tree_case<Tr: TreeApi>(rep: &mut Rep, r: &TreeRun) {
     let raw = gen_seq(&r.spec, <Tr::Item as Sym>::BITS);
     let data: Vec<Tr::Item> = raw.iter().map(|&x| <Tr::Item as Sym>::from_u128(x)).collect();
+    // small inputs are dumped in full so that run/logcheck.py can re-check the recorded events
+    // against its own, independent model (a guard for the Rust oracle itself)
+    if raw.len() <= 48 && (rep.cfg.shard == 0 || rep.cfg.only.is_some()) {
+        rep.note("input", J::Arr(raw.iter().map(|&x| J::Str(x.to_string())).collect()));
+        rep.allow_events(60);
+    }
     let m = SeqModel::new(raw);
     let mut rng = crate::prng::Rng::new(r.spec.seed ^ 0x7EE5);
     let mut forms = std::collections::BTreeSet::new();
@@ -156,7 +162,7 @@ pub fn run_tree_case<Tr: TreeApi>(rep: &mut Rep, r: &TreeRun) {
 
 fn budget(cfg: &Cfg) -> usize {
     match (cfg.scale, cfg.tier) {
-        (Scale::Tiny, Tier::Quick) => 100,
+        (Scale::Tiny, Tier::Quick) => 60,
         (Scale::Tiny, Tier::Thorough) => 220,
         (Scale::Mid, Tier::Quick) => 4_000,
         (Scale::Mid, Tier::Thorough) => 12_000,
@@ -210,7 +216,7 @@ fn thin<T: Clone>(v: Vec<T>, scale: Scale, tier: Tier, salt: usize) -> Vec<T> {
     if scale != Scale::Tiny {
         return v;
     }
-    let k = if tier == Tier::Quick { 6 } else { 2 };
+    let k = if tier == Tier::Quick { 8 } else { 2 };
     v.into_iter().enumerate().filter(|(i, _)| (i + salt) % k == 0).map(|(_, x)| x).collect()
 }
 
@@ -254,6 +260,17 @@ pub fn huff_cases(cfg: &Cfg, aliases: &[&'static str], arity: usize, opts: &BatO
             let r = TreeRun { spec, path: ((j + pi) % 3) as u8, ties, opts: opts.clone() };
             out.push(tree_case(alias, tname, r, w));
         }
+    }
+    if cfg.scale == Scale::Full {
+        // long (25..27-bit) codewords on two branches
+        let spec = long_two_branch_spec(cfg.seed ^ 0x2B);
+        let alias = aliases[aliases.len() - 1];
+        let mut o = opts.clone();
+        o.budget = o.budget.min(6000);
+        o.iter = false;
+        let w = spec.n as u64 * 3;
+        let r = TreeRun { spec, path: 2, ties: vec![None], opts: o };
+        out.push(tree_case(alias, "u8", r, w));
     }
     if with_over32 && cfg.scale == Scale::Full {
         // the input whose longest code exceeds 32 bits (known finding; see known_findings.json)
